@@ -39,6 +39,7 @@ func (g *GTPv2) DecodeFromBytes(data []byte, df gopacket.DecodeFeedback) error {
 	if dLen < hLen {
 		return fmt.Errorf("GTP packet too small: %d bytes", dLen)
 	}
+	g.TEID, g.IEs = 0, g.IEs[:0]
 	g.Version = (data[0] >> 5) & 0x07
 	g.PiggybackingFlag = ((data[0] >> 4) & 0x01) == 1
 	g.TEIDflag = ((data[0] >> 3) & 0x01) == 1
